@@ -107,6 +107,7 @@ class DensityFromOrbs(DensityBase):
     """evaluate_density_using_evaluated_orbs(gamma, Phi)[n] = sum_ab gamma_ab Phi_a(n) Phi_b(n); validation"""
 
     fp = True  # cross-check: the same contract on the unmodified float64 code at sampled inputs (bounded)
+    fp_nsamp = (1, 3)
 
     def fp_shapes(self, tier):
         sh = self.shapes(tier)
@@ -214,6 +215,7 @@ class ReducedDM(DensityBase):
     """evaluate_deriv_reduced_density_matrix(o1, o2)[n] = sum_ab gamma_ab Phi^{o1}_a(n) Phi^{o2}_b(n)"""
 
     fp = True  # cross-check: the same contract on the unmodified float64 code at sampled inputs (bounded)
+    fp_nsamp = (1, 3)
 
     def fp_shapes(self, tier):
         sh = self.shapes(tier)
@@ -251,6 +253,7 @@ class DerivDensity(DensityBase):
     sum_ab gamma_ab Phi_a Phi_b (the l_x shortcut with its factor 2 must reproduce it)"""
 
     fp = True  # cross-check: the same contract on the unmodified float64 code at sampled inputs (bounded)
+    fp_nsamp = (1, 3)
 
     def fp_shapes(self, tier):
         sh = self.shapes(tier)
@@ -292,6 +295,7 @@ class GradLapHess(DensityBase):
     """gradient, Laplacian, Hessian (all nine entries) and the relations between them"""
 
     fp = True  # cross-check: the same contract on the unmodified float64 code at sampled inputs (bounded)
+    fp_nsamp = (1, 3)
 
     def fp_shapes(self, tier):
         sh = self.shapes(tier)
